@@ -51,7 +51,7 @@ Definition spec_ok (c : ccase) : bool :=
   | CoreCase su _ res init steps =>
       let st := index_from 1 steps in
       (negb (res =? 0)) ||
-      (blocking_ok init st && rejected_unchanged init st && stacked_value_ok su init st)
+      (blocking_ok init st && rejected_unchanged init st && stacked_value_ok su init st && blocking_answered st)
   end.
 
 Definition check (c : ccase) : N := verdict (spec_ok c) c.
